@@ -778,7 +778,7 @@ class GenX64:
                 size = TYPE_BITS[ty] // 8
                 self.I("vmovdqu32", R(v), Mem(size, p, (i * 16) % (256 - size + 1)))
                 self.avx.append((v, ty))
-            for i in range(rng.choice([1, 2, 4, 7, 9])):
+            for i in range(rng.choice([1, 2, 4, 7, 9, 12])):
                 kk = self.new("k16", "k")
                 self.I("kmovw", R(kk), R(rng.choice(self.gp), "r32"))
                 self.kregs.append(kk)
